@@ -376,7 +376,7 @@ def wicks(expr, rules: Rules = None, simplify_kronecker_deltas: bool = False):
         return S.Zero
 
     # break up any NO-objects, and evaluate commutators
-    expr = expr.doit(wicks=True).expand()
+    expr = _to_adcgen_objects(expr.doit(wicks=True)).expand()
 
     if isinstance(expr, Add):
         return Add(*[wicks(term, rules=rules,
@@ -419,6 +419,28 @@ def wicks(expr, rules: Rules = None, simplify_kronecker_deltas: bool = False):
         raise TypeError(f"Rules needs to be of type {Rules}")
 
     return rules.apply(Expr(result)).sympy
+
+
+def _to_adcgen_objects(expr):
+    """
+    Splitting general indices in normal ordered operator strings, sympy
+    introduces plain Dummy symbols and its own KroneckerDelta. Replace them
+    by Index and the KroneckerDelta of adcgen.
+    """
+    from sympy import Dummy
+    from sympy.functions.special.tensor_functions import (
+        KroneckerDelta as SympyKroneckerDelta
+    )
+    dummies = [s for s in expr.atoms(Dummy) if not isinstance(s, Index)]
+    if dummies:
+        expr = expr.xreplace({
+            s: Index(s.name, **{k: v for k, v in s.assumptions0.items()
+                                if k in ("below_fermi", "above_fermi")})
+            for s in dummies
+        })
+    if expr.has(SympyKroneckerDelta):
+        expr = expr.replace(SympyKroneckerDelta, KroneckerDelta)
+    return expr
 
 
 def _contract_operator_string(op_string: list) -> Add:
